@@ -6,7 +6,6 @@ import (
 	"time"
 
 	dtpb "github.com/google/fhir/go/proto/google/fhir/proto/r4/core/datatypes_go_proto"
-	"github.com/shopspring/decimal"
 	"github.com/verily-src/fhirpath-go/internal/fhir"
 	"github.com/verily-src/fhirpath-go/internal/fhirconv"
 )
@@ -186,29 +185,7 @@ func (dt DateTime) Less(input Any) (Boolean, error) {
 // Add returns the result of dt + input. Returns an
 // error if input does not represent a valid time valued quantity.
 func (dt DateTime) Add(input Quantity) (DateTime, error) {
-	var result time.Time
-	value := int(decimal.Decimal(input.value).IntPart())
-	switch input.unit {
-	case "year", "years":
-		result = addYear(dt.dateTime, value)
-	case "month", "months":
-		result = addMonth(dt.dateTime, value)
-	case "week", "weeks":
-		value = 7 * value
-		result = dt.dateTime.AddDate(0, 0, value)
-	case "day", "days":
-		result = dt.dateTime.AddDate(0, 0, value)
-	default:
-		duration, err := input.timeDuration()
-		if err != nil {
-			return DateTime{}, err
-		}
-		result = dt.dateTime.Add(duration)
-	}
-
-	// Reformat to truncate DateTime to initial precision, rounding down to
-	// highest precision value.
-	result, err := time.Parse(string(dt.l), result.Format(string(dt.l)))
+	result, err := addQuantity(dt.dateTime, input, dt.precisionUnit(), 1)
 	if err != nil {
 		return DateTime{}, err
 	}
@@ -219,47 +196,30 @@ func (dt DateTime) Add(input Quantity) (DateTime, error) {
 // error if the input is not a Quantity, or if it does not represent
 // a valid time duration.
 func (dt DateTime) Sub(input Quantity) (DateTime, error) {
-	// Handle partial dates by rounding quantity to appropriate precision.
-	// Subtraction is not symmetric with addition, so truncation cannot be
-	// applied here.
-	if dt.l == dtYearLayout {
-		years, err := input.toYears()
-		if err != nil {
-			return DateTime{}, err
-		}
-		return DateTime{dt.dateTime.AddDate(-years, 0, 0), dt.l}, nil
-	}
-	if dt.l == dtMonthLayout {
-		months, err := input.toMonths()
-		if err != nil {
-			return DateTime{}, err
-		}
-		return DateTime{dt.dateTime.AddDate(0, -months, 0), dt.l}, nil
-	}
-
-	// Handles non-partial dates here.
-	var result time.Time
-	value := -int(decimal.Decimal(input.value).IntPart())
-	switch input.unit {
-	case "year", "years":
-		result = addYear(dt.dateTime, value)
-	case "month", "months":
-		result = addMonth(dt.dateTime, value)
-	case "week", "weeks":
-		value = 7 * value
-		result = dt.dateTime.AddDate(0, 0, value)
-	case "day", "days":
-		result = dt.dateTime.AddDate(0, 0, value)
-	default:
-		// Get time valued duration, and round down to appropriate precision.
-		duration, err := input.timeDuration()
-		if err != nil {
-			return DateTime{}, err
-		}
-		duration = roundToDateTimePrecision(dateTimeMap[dt.l], duration)
-		result = dt.dateTime.Add(-duration)
+	result, err := addQuantity(dt.dateTime, input, dt.precisionUnit(), -1)
+	if err != nil {
+		return DateTime{}, err
 	}
 	return DateTime{result, dt.l}, nil
+}
+
+// precisionUnit returns the calendar unit of the value's finest component.
+func (dt DateTime) precisionUnit() timeUnit {
+	switch dt.l {
+	case dtYearLayout:
+		return unitYear
+	case dtMonthLayout:
+		return unitMonth
+	case dtDayLayout:
+		return unitDay
+	case dtHourLayout, dtHourLayoutTZ:
+		return unitHour
+	case dtMinuteLayout, dtMinuteLayoutTZ:
+		return unitMinute
+	case dtSecondLayout, dtSecondLayoutTZ:
+		return unitSecond
+	}
+	return unitMillisecond
 }
 
 // Name returns the type name.
@@ -285,25 +245,6 @@ func (dt DateTime) getComponents() []int {
 		dt.dateTime.Hour(),
 		dt.dateTime.Minute(),
 		dt.dateTime.Second()*1000000000 + dt.dateTime.Nanosecond(),
-	}
-}
-
-// roundToDateTimePrecision rounds the duration down to the appropriate precision.
-// Eg. 2012-03-20T + 23 'hours' = 2012-03-20T but 2012-03-20T + 24 'hours' = 2012-03-21T.
-func roundToDateTimePrecision(p dateTimePrecision, d time.Duration) time.Duration {
-	switch p {
-	case dtYear:
-		return d / (time.Hour * 24 * 365)
-	case dtMonth:
-		return d / (time.Hour * 24 * 30)
-	case dtDay:
-		return d / (time.Hour * 24)
-	case dtHour:
-		return d / time.Hour
-	case dtMinute:
-		return d / time.Minute
-	default:
-		return d
 	}
 }
 
